@@ -75,26 +75,29 @@ def convert_eems2_commands(command_nodes):
     converted = []
 
     for node in command_nodes:
-        try:
-            converted.append(
-                CommandNode(
-                    node.result_name
-                    or find_argument(node, "NewFieldName")
-                    or find_argument(node, "InFieldName"),
-                    EEMS_COMMANDS.get(node.command, node.command),
-                    [
-                        arg
-                        for arg in node.arguments
-                        if arg.name not in ("NewFieldName", "OutFileName")
-                    ],
-                    node.lineno,
-                )
-            )
-        except StopIteration:
+        result_name = (
+            node.result_name
+            or find_argument(node, "NewFieldName")
+            or find_argument(node, "InFieldName")
+        )
+        if not isinstance(result_name, six.string_types):
             raise ProgramError(
                 lineno=node.lineno,
                 message="Cannot convert from EEMS 2.0: No InFieldName argument for command without a result name.",
             )
+
+        converted.append(
+            CommandNode(
+                result_name,
+                EEMS_COMMANDS.get(node.command, node.command),
+                [
+                    arg
+                    for arg in node.arguments
+                    if arg.name not in ("NewFieldName", "OutFileName")
+                ],
+                node.lineno,
+            )
+        )
 
     return converted
 
